@@ -203,6 +203,48 @@ pub fn run(s: &mut Src, ctx: &mut Ctx) -> Verdict {
             return Verdict::fail("fired-counter-vs-contexts", format!("rep {}: total_rules_fired={} but {} contexts fired", rep, par.total_rules_fired, fired_n));
         }
     }
+    // The same engine object is then handed ANOTHER knowledge base (execute_parallel takes the knowledge base as an
+    // argument): same name, same number of mutations, the same rules added in reverse order with every second enabled
+    // flag flipped. What it reports must again be what a fresh engine's one-by-one path reports for THAT knowledge base.
+    // (A pure function of the case: no draw.)
+    {
+        let kb2 = KnowledgeBase::new("kb");
+        let en2: Vec<bool> = c.enabled.iter().enumerate().map(|(i, e)| if i % 2 == 0 { !*e } else { *e }).collect();
+        for (r, en) in c.rules.iter().zip(en2.iter()).rev() {
+            let mut rule = rule_to_engine(r);
+            rule.enabled = *en;
+            if kb2.add_rule(rule).is_err() {
+                return Verdict::fail("add-rule-error", "");
+            }
+        }
+        let fresh = ParallelRuleEngine::new(ParallelConfig { enabled: false, max_threads: 1, min_rules_per_thread: 1, dependency_analysis: false });
+        let want = match catch(|| fresh.execute_parallel(&kb2, &facts, false)) {
+            Ok(Ok(r)) => r,
+            Ok(Err(e)) => return Verdict::fail("sequential-error", format!("second knowledge base: {}", e)),
+            Err(p) => return Verdict::fail(format!("panic@{}", p.split(": ").next().unwrap_or("?")), p),
+        };
+        let got = match catch(|| par_engine.execute_parallel(&kb2, &facts, false)) {
+            Ok(Ok(r)) => r,
+            Ok(Err(e)) => return Verdict::fail("parallel-error", format!("second knowledge base: {}", e)),
+            Err(p) => return Verdict::fail(format!("panic@{}", p.split(": ").next().unwrap_or("?")), p),
+        };
+        let m = |r: &rust_rule_engine::engine::parallel::ParallelExecutionResult| -> BTreeMap<String, bool> { r.execution_contexts.iter().map(|cx| (cx.rule.name.clone(), cx.fired)).collect() };
+        let (wm, gm) = (m(&want), m(&got));
+        if wm != gm || want.total_rules_evaluated != got.total_rules_evaluated || want.total_rules_fired != got.total_rules_fired || got.execution_contexts.len() != gm.len() {
+            let d: Vec<String> = wm.iter().filter(|(k, v)| gm.get(*k) != Some(v)).map(|(k, v)| format!("{}: one-by-one fired={} reused engine {:?}", k, v, gm.get(k))).collect();
+            let extra: Vec<&String> = gm.keys().filter(|k| !wm.contains_key(*k)).collect();
+            return Verdict::fail(
+                "fired-set-differs:engine-reused-on-another-knowledge-base",
+                format!(
+                    "the engine that had executed the first knowledge base reports evaluated={} fired={} for the second one (same name, same version), one by one: evaluated={} fired={}; {:?} extra={:?}",
+                    got.total_rules_evaluated, got.total_rules_fired, want.total_rules_evaluated, want.total_rules_fired, d, extra
+                ),
+            );
+        }
+        if wm != seq_map {
+            ctx.label("second-knowledge-base-has-other-verdicts");
+        }
+    }
     // classification
     let mut levels: BTreeMap<i32, Vec<bool>> = BTreeMap::new();
     for (r, en) in c.rules.iter().zip(c.enabled.iter()) {
